@@ -87,6 +87,44 @@ CLAIMS = {
                  '(complete observable state) and the model of those rows; a non-convertible node or timestamp at '
                  'every row index must raise TypeError; keys=True (second open of the same path by name) must give '
                  'the graph of the rank-substituted rows; compact_timeslot must be the rank bijection.'),
+    'C12': claim('exploration', 'DESIGN.md 7/C12',
+                 'deterministic simulation: path probes on reached states, every returned hop checked against the model; sampling PRNG scheduled by the simulator',
+                 'Observer on states reached through simulated histories (rejections, slices included): every path '
+                 'returned by time_respecting_paths (sample=1 and sample<1 with the index subset chosen by the '
+                 'simulator: first-k, last-k, seeded-k, empty) and all_time_respecting_paths is checked clause by '
+                 'clause against the model (first hop leaves u, chaining, strictly increasing times inside the '
+                 'window, hop present, no immediate reversal, no idle intermediate node, reaches v), plus key/tuple/'
+                 'duplicate structure. Only the sampling seam is a simulator-controlled nondeterminism; otherwise '
+                 'the simulator contributes states and replay.'),
+    'C13': claim('exploration', 'DESIGN.md 7/C13',
+                 'deterministic simulation: path probes vs brute-force enumeration from the model; sampling PRNG replaced by a scheduled stub',
+                 'With sample=1 and u present at an explicit start the returned path set must equal a brute-force '
+                 'enumeration written directly from the statement; absent u gives the empty result; with sample<1 '
+                 'every simulator-chosen index subset must give a subset of the full result; '
+                 'all_time_respecting_paths must equal the per-source aggregation. Probes whose root carries a '
+                 'self-loop inside the window are not asserted (the statement leaves that hop undefined).'),
+    'C15': claim('exploration', 'DESIGN.md 7/C15',
+                 'deterministic simulation: temporal-DAG probes on reached states (observer)',
+                 'temporal_dag is probed for seeded (u, v, start, end) incl. windows ending before the last id, '
+                 'windows between ids, invalid windows and empty graphs: acyclicity, every edge an interaction of the '
+                 'model at a window instant with the right time order, sources exactly the occurrences of u with a '
+                 'neighbour, targets occurrences of v inside the DAG, ValueError for invalid windows. No fault dimension.'),
+    'C17': claim('exploration', 'DESIGN.md 7/C17',
+                 'deterministic simulation: statistics probes on reached states vs exact rational recomputation (observer)',
+                 'All listed measures are recomputed with fractions from the model (spans, several runs per pair, '
+                 'nodes appearing and disappearing, states after rejections, slices and file restarts) and compared '
+                 'to 1e-9 and to [0,1]; inter-event distributions are compared with the gap histogram of the actual '
+                 'stream. No fault dimension.'),
+    'C19': claim('fault_enumeration', 'DESIGN.md 7/C19',
+                 'deterministic simulation with illegal-call faults: blocked mutators, every inherited networkx callable with synthesised arguments, frozen graphs; shadow replay',
+                 'At seeded points of histories (both classes and modes) the simulator calls each blocked mutator/'
+                 'view (must raise NetworkXNotImplemented, interactions/timelines/ids/stream untouched), every other '
+                 'public callable or property inherited from the installed networkx (enumerated at run time) with '
+                 'arguments synthesised from its signature (any outcome, but afterwards every adjacency entry has a '
+                 'timeline and presence, ids, counts and stream agree with a model advanced only by legitimate node '
+                 'additions / clear), and after freeze every networkx mutator (must raise, state unchanged). '
+                 'Accepted operations alone are replayed at the end (shadow). Open finding D23 (pinned): dynetx own '
+                 'mutators still work on frozen graphs.'),
     'C16': claim('exploration', 'DESIGN.md 7/C16',
                  'deterministic simulation: conversions derived mid-history + aliasing interleaving (mutate one replica, observe the others)',
                  'to_directed / to_undirected(reciprocal or not) are applied at seeded points; presence of the result '
